@@ -150,7 +150,7 @@ def pre_params(which: bool, np: int, ln1: int, n1a: int, n1b: int, lv1: int, v1a
 
 @harness(
     pre=pre_params,
-    quick=dict(LN=2, LV=1, NV2=3, timeout=120),
+    quick=dict(LN=2, LV=1, NV2=2, timeout=120),
     thorough=dict(LN=2, LV=2, NV2=5, timeout=900),
     nshards=dict(quick=22, thorough=22),
     reach=["name_needs_escaping", "order_differs_after_encoding", "plain"],
